@@ -4,6 +4,7 @@ put what happened into the canonical form compared with the Lean model (lean/Ric
 Operations of a thread program (small tuples):
     ("P", lines, how)        console.print / console.log of user output (how = "seg" | "str" | "log", see lib_live)
     ("K", [(lines, how)…])   with console.capture(): one print per entry
+    ("N", (la, ha), (lb, hb), (lc, hc))   with capture(): print a; with capture(): print b; print c   (inner result first)
     ("U", lines, refresh)    Live.update(renderable yielding `lines`, refresh=…)
     ("R",) refresh   ("S",) start   ("X",) stop   ("V", id, n) Progress.advance
     ("G", npre)              harness barrier: wait until thread 0 has finished its first `npre` operations
@@ -58,6 +59,8 @@ class Scn:
             return "P" + enc_str_list(self.user_lines(op[1], op[2]))
         if k == "K":
             return "K" + "#".join(enc_str_list(self.user_lines(l, h)) for l, h in op[1])
+        if k == "N":
+            return "N" + "#".join(enc_str_list(self.user_lines(l, h)) for l, h in op[1:4])
         if k == "U":
             return f"U{int(op[2])};" + enc_str_list(op[1])
         if k in ("R", "S", "X"):
@@ -171,6 +174,14 @@ def run_real(scn, chooser, line_mode=False):
                 for lines, how in op[1]:
                     _print(console, lines, how)
             captures[sched.current()].append(cap.get())
+        elif k == "N":
+            with console.capture() as outer:
+                _print(console, *op[1])
+                with console.capture() as inner:
+                    _print(console, *op[2])
+                captures[sched.current()].append(inner.get())
+                _print(console, *op[3])
+            captures[sched.current()].append(outer.get())
         elif k == "U":
             disp.update(FrameR(op[1]), refresh=op[2])
         elif k == "R":
